@@ -26,6 +26,11 @@ Static rules (DESIGN.md §C06, engine sa/tabchain.py):
               table: a missing recursion term or a wrong coefficient breaks harmonicity.
  (l1-order also: the rows of the derivative table are read at multiples of the row length the caller passes, the
               parameter python binds to <table>.shape[1])
+ sph-bounds   both generators executed for the buffers setup_sph_harm_buffer builds for nlm = 1, 4, 9 store only inside
+              res[0..nlm) and inside the allocated tables, and fill res completely (a store at a fixed index needs
+              a check that the buffer is that large)
+ table-extent a file-scope constant table of fixed extent is indexed below its extent: constant loop bound, or a guard
+              that rejects larger run-time bounds (clang AST; local scratch arrays sized by convention are not judged)
  setup-invariance  Python set-up code (pyscf/*.py, dft/lcao_*.py, grids_indexer.py): values derived from
               mol.atom_coords()/atom_coord() reach call arguments, returns, stores or branch conditions only
               through differences of positions reduced by norm / dot / sum of squares over the Cartesian axis
@@ -671,6 +676,128 @@ def rule_sph_harmonic(chk, tus):
 
 
 # ----------------------------------------------------------------------------------------------
+# table-extent / sph-bounds: indices stay inside fixed-size tables and inside the buffers of the smallest set-up
+# ----------------------------------------------------------------------------------------------
+def rule_table_extent(chk, tus, files=None):
+    """a file-scope constant array of fixed extent N (a lookup table) indexed by an expression whose largest value is
+    a loop bound: the bound must be a constant <= N-1, or the function must reject larger run-time bounds before the
+    loop.  (FAC_LIST[24] indexed by m < buf.lmax was the instance.)"""
+    n = 0
+    for rel, tu in sorted(tus.items()):
+        if files is not None and rel not in files:
+            continue
+        for fname in sorted(tu.funcs):
+            for u in tc.const_table_uses(tu, fname):
+                n += 1
+                inst = "%s:%s %s[%s] (extent %d)" % (rel, fname, u["table"], u["index_text"], u["extent"])
+                kind, val = u["bound"]
+                line = tu.line_of(u["node"])
+                if kind == "const":
+                    if 0 <= val < u["extent"]:
+                        chk.ok("table-extent", inst)
+                    else:
+                        chk.violation("table-extent", cfacts.LIB + "/" + rel, fname, "%s[%s]" % (u["table"], u["index_text"]), line,
+                                      "index reaches %d but %s has %d entries" % (val, u["table"], u["extent"]), instance=inst)
+                    continue
+                # run-time bound: look for a rejecting guard that compares it with a constant not above the extent
+                guarded = False
+                for x in tc.walk_stmts(tu.body(fname)):
+                    if x.get("kind") == "IfStmt":
+                        ks = cfacts.kids(x)
+                        ctext = tc.norm_c(tu.text_of(ks[0]))
+                        consts = [tc.const_int(y) for y in cfacts.walk(ks[0]) if y.get("kind") == "IntegerLiteral"]
+                        exits = any(y.get("kind") == "ReturnStmt" or (y.get("kind") == "CallExpr" and
+                                    cfacts.strip(cfacts.kids(y)[0]).get("referencedDecl", {}).get("name") in ("exit", "abort"))
+                                    for y in tc.walk_stmts(ks[1]))
+                        if exits and val in ctext and any(c is not None and c <= u["extent"] + 1 for c in consts) \
+                                and (">" in ctext):
+                            guarded = True
+                if guarded:
+                    chk.ok("table-extent", inst + " [guarded]")
+                else:
+                    chk.violation("table-extent", cfacts.LIB + "/" + rel, fname, "%s[%s]" % (u["table"], u["index_text"]), line,
+                                  "%s is a table of %d entries, but the index %s is bounded only by the run-time quantity %s "
+                                  "(no check rejects larger values): for %s > %d the loop reads past the end of the table" % (
+                                      u["table"], u["extent"], u["index_text"], val, val, u["extent"]), instance=inst)
+    if n == 0:
+        chk.ok("table-extent", "no file-scope constant table is indexed in the parsed files", nontrivial=False)
+    chk.count("constant-table subscripts", n)
+
+
+def sph_bounds(tu, fname, lmax):
+    """stores of one generator for buf.lmax = lmax, with the allocation counts of setup_sph_harm_buffer:
+    -> (indices stored into res, [(array, index, allocated)] for stores past the allocation)"""
+    nlm = (lmax + 1) ** 2
+    ev0 = tc.Ev(tu)
+    ev0.unroll = ev0.expand = ev0.exact_roots = ev0.inline_calls = True
+    ev0.lenient = True
+    ps = tu.params("setup_sph_harm_buffer")
+    env0 = tc.new_env()
+    env0["vals"][ps[0]["id"]] = Poly.const(nlm)
+    ev0.block(tu.body("setup_sph_harm_buffer"), env0)
+    sizes = {}
+    for key, cnt in env0.get("alloc_counts", {}).items():
+        c = cnt.const_value()
+        if c is not None:
+            sizes[key.split("@")[0]] = int(c)
+    if not sizes:
+        raise core.AnalysisError("setup_sph_harm_buffer: allocation sizes not evaluated for nlm=%d" % nlm)
+    fields = {k.split("@")[0]: v for k, v in env0["fields"].items() if v is not None}
+    ps = tu.params(fname)
+    rp = [p for p in ps if tc.ptype(p) == "double *"]
+    ev = tc.Ev(tu)
+    ev.unroll = ev.expand = ev.inline_calls = True
+    ev.concrete = {}
+    for tk in ("member:sphbuf.lmax", "member:sphbuf.lp1", "member:sphbuf.nlm"):
+        c = fields.get(tk).const_value() if fields.get(tk) is not None else None
+        if c is None:
+            raise core.AnalysisError("setup_sph_harm_buffer does not fix %s for nlm=%d" % (tk, nlm))
+        ev.concrete[tk] = int(c)
+    env = tc.new_env({rp[0]["id"]: "R", rp[1]["id"]: "RES"})
+    env["zero_roots"] = {k for k in sizes}
+    ev.block(tu.body(fname), env)
+    res_idx, over = [], []
+    for st in env["stores"]:
+        ci = st["index"].const_value()
+        if st["root"] == "RES":
+            if ci is None:
+                raise core.AnalysisError("%s: non-constant res index after unrolling (lmax=%d)" % (fname, lmax))
+            res_idx.append(int(ci))
+        else:
+            tk = st["root"].split("@")[0]
+            if tk in sizes and ci is not None and not (0 <= ci < sizes[tk]):
+                over.append((tk.split(".")[-1], int(ci), sizes[tk], st["node"]))
+    return res_idx, over
+
+
+def rule_sph_bounds(chk, tus):
+    tu = tus[C_SPH]
+    for fname in ("recursive_sph_harm", "recursive_sph_harm_deriv"):
+        tu.func(fname)
+        for lmax in (0, 1, 2):
+            nlm = (lmax + 1) ** 2
+            inst = "%s for the set-up with nlm=%d (lmax=%d): every store is inside its buffer" % (fname, nlm, lmax)
+            res_idx, over = sph_bounds(tu, fname, lmax)
+            bad = sorted({i for i in res_idx if not (0 <= i < nlm)})
+            if bad or over:
+                what = []
+                if bad:
+                    what.append("res[%s] although res has %d entr%s" % (",".join(map(str, bad)), nlm, "y" if nlm == 1 else "ies"))
+                for arr, i, size, node in over[:3]:
+                    what.append("buf.%s[%d] although %d were allocated" % (arr, i, size))
+                chk.violation("sph-bounds", F[C_SPH], fname, "stores for nlm=%d" % nlm, tu.line_of(tu.func(fname)),
+                              "executed for the buffer that setup_sph_harm_buffer(%d) builds (lmax=%d), %s writes %s: entries at "
+                              "fixed indices are stored without a check that the buffer is that large" % (
+                                  nlm, lmax, fname, "; ".join(what)), instance=inst)
+            elif sorted(set(res_idx)) != list(range(nlm)):
+                chk.violation("sph-bounds", F[C_SPH], fname, "coverage for nlm=%d" % nlm, tu.line_of(tu.func(fname)),
+                              "for lmax=%d the generator fills res%s, not all %d entries" % (lmax, sorted(set(res_idx)), nlm),
+                              instance=inst)
+            else:
+                chk.ok("sph-bounds", inst)
+
+
+# ----------------------------------------------------------------------------------------------
 # xyz-slots
 # ----------------------------------------------------------------------------------------------
 def _lib_func(v):
@@ -1241,6 +1368,11 @@ def _analyse_own(chk):
                          "(loops executed concretely)" % SPH_LMAX)
     chk.rule("sph-harmonic", "each Y_lm generated by recursive_sph_harm with the tables of setup_sph_harm_buffer (both executed "
                              "for lmax = %d, exact arithmetic over square roots) is a harmonic polynomial of degree l" % SPH_LMAX)
+    chk.rule("sph-bounds", "both generators, executed for the buffers of nlm = 1, 4, 9, store only inside res[0..nlm) and "
+                           "inside the allocated tables, and fill every entry of res")
+    chk.rule("table-extent", "a file-scope constant table of fixed extent is indexed below its extent (constant loop bound "
+                             "or a rejecting guard on the run-time bound)")
+    chk.floor("sph-bounds", 3, "2 generators x 3 configurations")
     chk.rule("xyz-slots", "feature slots ix+c are paired with Cartesian component c in the add_lp1_* / fill_l1_coeff_* functions")
     chk.rule("setup-invariance", "python set-up values derived from mol.atom_coords() reach scalars only through "
                                  "rotation/translation-invariant reductions of position differences")
@@ -1254,6 +1386,8 @@ def _analyse_own(chk):
     chk.guard(rule_l1_order, tus)
     chk.guard(rule_sph_twin, tus)
     chk.guard(rule_sph_harmonic, tus)
+    chk.guard(rule_sph_bounds, tus)
+    chk.guard(rule_table_extent, tus)
     chk.guard(rule_xyz_slots, tus)
     chk.guard(rule_translation, tus)
     chk.guard(rule_setup_invariance)
@@ -1338,10 +1472,10 @@ def mutants(tree):
         Mutant("SDMX l1 term uses absolute grid coordinate", F[C_SDMX], "_vbas0[g] * (_gridy[g] - atomy[ia]);", "_vbas0[g] * (_gridy[g]);",
                expect="translation"),
         Mutant("recursive_sph_harm: sign of the sine-type harmonics flipped", F[C_SPH],
-               "res[lm - m - 1] = FAC_LIST[m] * cimag(ylm[ind + lp1 + 1]);", "res[lm - m - 1] = -FAC_LIST[m] * cimag(ylm[ind + lp1 + 1]);",
+               "res[lm - m - 1] = FAC_LIST(m) * cimag(ylm[ind + lp1 + 1]);", "res[lm - m - 1] = -FAC_LIST(m) * cimag(ylm[ind + lp1 + 1]);",
                expect="sph-twin"),
-        Mutant("FAC_LIST entry with the wrong sign", F[C_SPH], "{-SQRT2, SQRT2, -SQRT2, SQRT2, -SQRT2, SQRT2,", "{-SQRT2, SQRT2, -SQRT2, -SQRT2, -SQRT2, SQRT2,",
-               expect="sph-twin"),
+        Mutant("sign factor with the wrong parity", F[C_SPH], "#define FAC_LIST(m) (((m)&1) ? SQRT2 : -SQRT2)",
+               "#define FAC_LIST(m) (((m)&2) ? SQRT2 : -SQRT2)", expect="sph-twin"),
         Mutant("deriv generator never flips fac", F[C_SPH], "            dresz[indp1] = fac * creal(dylmz[ind]);\n            fac = -fac;",
                "            dresz[indp1] = fac * creal(dylmz[ind]);", expect="sph-twin"),
         Mutant("alpha0 from the bounding box", "ciderpress/pyscf/sdmx.py",
@@ -1362,6 +1496,10 @@ def mutants(tree):
         Mutant("c1 recursion coefficient wrong", F[C_SPH], "sqrt((double)(2 * l + 3) / (2 * l - 1)) * (double)l / (l + 1);",
                "sqrt((double)(2 * l + 3) / (2 * l + 1)) * (double)l / (l + 1);", expect="sph-harmonic"),
         Mutant("Gaunt rows addressed with the atom's nlm", F[C_SDMX], fn=_atom_stride, expect="l1-order"),
+        Mutant("sign factors back in a 24-entry table", F[C_SPH], fn=_fac_table, expect="table-extent"),
+        Mutant("generator stores the l=1 entries without checking lmax", F[C_SPH],
+               "    if (buf.lmax < 1) {\n        return; // nlm == 1: there is no room for the l=1 entries\n    }\n    ylm[1 * lp1 + 0]",
+               "    ylm[1 * lp1 + 0]", expect="sph-bounds"),
         Mutant("SDMXylm_loop: atom y taken from z", F[C_SDMX], "gridy[g] - atom_coords[3 * ia + 1];", "gridy[g] - atom_coords[3 * ia + 2];",
                expect="translation"),
     ]
@@ -1394,6 +1532,16 @@ def _dedup_temp(text):
            "            full_ylm_loc = np.append(full_ylm_loc, ylm_loc_tab[symb] + ystart)\n")
     return text.replace(_YLM_OLD, new, 1).replace("        full_ylm = np.empty((0, nlm), dtype=np.float64)\n",
                                                   "        full_ylm = np.empty((0, nlm), dtype=np.float64)\n        ylm_done = set()\n", 1)
+
+
+def _fac_table(text):
+    a = "#define FAC_LIST(m) (((m)&1) ? SQRT2 : -SQRT2)"
+    if a not in text:
+        return None
+    tab = ("static const double FAC_TAB[24] = {-SQRT2, SQRT2, -SQRT2, SQRT2, -SQRT2, SQRT2,\n"
+           "    -SQRT2, SQRT2, -SQRT2, SQRT2, -SQRT2, SQRT2, -SQRT2, SQRT2, -SQRT2, SQRT2, -SQRT2, SQRT2,\n"
+           "    -SQRT2, SQRT2, -SQRT2, SQRT2, -SQRT2, SQRT2};\n#define FAC_LIST(m) FAC_TAB[m]")
+    return text.replace(a, tab, 1)
 
 
 def _atom_stride(text):
